@@ -688,3 +688,30 @@ Proof.
   apply Forall_app; split; [exact Hb|]. constructor; [|constructor].
   cbn [snd]. split; [reflexivity|]. split; [reflexivity|]. cbn. discriminate.
 Qed.
+
+(* what "legal" means, response by response *)
+Lemma zprefix_len a b : zprefix a b = true -> zlen a <= zlen b.
+Proof.
+  revert b; induction a as [|x a IH]; intros b H; [unfold zlen; cbn; lia|].
+  destruct b as [|y b]; [discriminate|]. cbn [zprefix] in H. apply andb_prop in H. destruct H as [_ H].
+  specialize (IH _ H). rewrite !zlen_cons. lia.
+Qed.
+Lemma apply_resp_legal view r view' :
+  apply_resp view r = Some view' ->
+  match r with
+  | RExists n g => zlen view <= n /\ zprefix view view' = true /\ zlen view' = n
+  | RExpunge n => 1 <= n <= zlen view /\ view' = remove_at (Z.to_nat (n - 1)) view
+  | RFetch n _ _ g => znth view (n - 1) = Some g /\ view' = view
+  | RBody n _ _ _ g => znth view (n - 1) = Some g /\ view' = view
+  | _ => view' = view
+  end.
+Proof.
+  destruct r; cbn [apply_resp]; intros H; try (inversion H; reflexivity).
+  - destruct ((zlen g =? n) && zprefix view g) eqn:E; [|discriminate]. inversion H; subst.
+    apply andb_prop in E. destruct E as [E1 E2]. pose proof (zprefix_len _ _ E2). repeat split; trivial; lia.
+  - destruct ((1 <=? n) && (n <=? zlen view)) eqn:E; [|discriminate]. inversion H; subst. split; [lia|reflexivity].
+  - destruct (znth view (n - 1)) as [u0|]; [|discriminate]. destruct (u0 =? g) eqn:E; [|discriminate].
+    inversion H; subst. apply Z.eqb_eq in E. subst. auto.
+  - destruct (znth view (n - 1)) as [u0|]; [|discriminate]. destruct (u0 =? g) eqn:E; [|discriminate].
+    inversion H; subst. apply Z.eqb_eq in E. subst. auto.
+Qed.
